@@ -40,12 +40,12 @@ check("C04", "streamsim", "exploration",
   "Time is measured in simulated steps (function entries) and Read calls, not seconds. Nesting explored to 2*10^4 levels only. The quantifier over all byte strings and bindings is sampled by the generator. Non-contract stream behaviour is judged by the crash/termination oracle only.",
   "deterministic simulation: fault-injecting simulated input stream + step-budget scheduler hook + truncation-equivalence reference", "DESIGN.md §4 C04")
 check("C05", "streamsim", "fault_enumeration",
-  "For each sampled text (token soups over every token spelling, CR/LF/CRLF mixes, multi-byte and invalid UTF-8, comments, unterminated strings, bad escapes, mutated statements) EVERY truncation offset is enumerated as a crash point, for EOF and for error terminals, under three delivery policies and a drawn bufio size. After every Scan the bytes consumed are computed from I/O accounting (delivered - buffered - pending pushback), giving token extents independent of the positions under test. Invariants: EOF within len+2 tokens and sticky; extents tile the text exactly; every token position equals an independent zero-based line/column counter (CRLF / lone CR one break); tokens far enough from the cut are identical to the fault-free scan; ParseError positions point at the token they name. Exhaustive over crash points per text, sampled over texts.",
+  "For each sampled text (token soups over every token spelling, CR/LF/CRLF mixes, multi-byte and invalid UTF-8, comments, unterminated strings, bad escapes, mutated statements) EVERY truncation offset is enumerated as a crash point, for EOF and for error terminals, under three delivery policies and a drawn bufio size. After every Scan the bytes consumed are computed from I/O accounting (delivered - buffered - pending pushback), giving token extents independent of the positions under test. Invariants: EOF within len+2 tokens and sticky; extents tile the text exactly; every token position equals an independent zero-based line/column counter (CRLF / lone CR one break); tokens far enough from the cut are identical to the fault-free scan; ParseError positions (all three entry points) point at the token they name and an error value does not change when a later parse fails; the token stream is identical under every delivery schedule and terminal kind; a scanner created after another one reached EOF scans its text as it would alone. Exhaustive over crash points per text, sampled over texts.",
   "Token extents rely on reading bufio.Reader.Buffered() and the scanner's pushback ring through reflect/unsafe; if those fields cannot be found the tiling probe is reported off. Five position defects that the repository's own tests encode are listed in known_findings.json (each keyed by what the wrong position IS, so any other wrong position is still a violation).",
   "deterministic simulation: crash-point enumeration over a simulated input stream with I/O-accounting tiling oracle", "DESIGN.md §4 C05")
 
 check("C13", "opsim", "exploration",
-  "Seeded exploration of operation sequences: a generated statement (biased towards accepted-but-odd shapes: zero/too-few/surplus arguments, zero or negative intervals, fractional divisors, wildcards and regexes in odd places, unknown functions) is parsed and a drawn sequence of 1-12 public operations is applied to it (printing, cloning, walking, all rewrites, wildcard expansion, Reduce, Eval/EvalBool/EvalType, ConditionExpr, SetTimeRange, GROUP BY interval/offset/Normalize, column and field names, privileges ...), each against a simulated schema service with an injected fault schedule and a simulated valuer (wrong-kind, NaN, extreme values, a simulated clock value, zones). In-place rewrites and kept results change what later operations see. Invariant: no operation panics or exceeds its step budget. A sampled crash oracle, exhaustive over nothing; stronger than the suite, which never sequences operations nor uses failing services.",
+  "Seeded exploration of operation sequences: a generated statement (biased towards accepted-but-odd shapes: zero/too-few/surplus arguments, zero or negative intervals, fractional divisors, wildcards and regexes in odd places, unknown functions) is parsed and a drawn sequence of 1-12 public operations is applied to it (printing, cloning, walking, all rewrites, wildcard expansion, Reduce, Eval/EvalBool/EvalType, ConditionExpr, SetTimeRange, GROUP BY interval/offset/Normalize, column and field names, privileges ...), each against a simulated schema service with an injected fault schedule and a valuer composed of a stub (wrong-kind, NaN, extreme values) and the package's own NowValuer / MapValuer / MultiValuer on a simulated clock and zone; the type mapper is the stub, MultiTypeMapper around it, or nil. In-place rewrites and kept results change what later operations see. Invariant: no operation panics or exceeds its step budget. A sampled crash oracle, exhaustive over nothing; stronger than the suite, which never sequences operations nor uses failing services.",
   "The quantifier over accepted statements is sampled by the generator. Rewriters handed to Rewrite/RewriteExpr are type-preserving. Sources.MarshalBinary is not in the property's list of operations and is not exercised.",
   "deterministic simulation: seeded operation histories against fault-injecting schema-service and valuer stubs, panic/step-budget invariant", "DESIGN.md §4 C13")
 check("C14", "opsim", "exploration",
@@ -53,7 +53,7 @@ check("C14", "opsim", "exploration",
   "Structural identity is judged on exported fields (the unexported GroupByInterval memo is not observable). Sharing of immutable values (*regexp.Regexp, *time.Location) is allowed because independence is checked behaviourally. Statements and histories are sampled.",
   "deterministic simulation: seeded multi-owner mutation histories with structural-fingerprint invariants after every step, exhaustive mutable-site enumeration per AST", "DESIGN.md §4 C14")
 check("C17", "schedsim", "exploration",
-  "Deterministic scheduling of real goroutines: 2-6 caller tasks run scripts of independent work (parse, print, quote, format, sanitize, lookup) and read-only operations on 1-2 shared ASTs; a pre-drawn plan decides which task runs and where it is preempted (library function entries, schema-service/valuer callbacks, statements touching sync/atomic or sync.Map, operation boundaries). The binary is built with -race; the scheduler's handoffs are hidden from ThreadSanitizer (norace functions, RaceDisable around channel operations), so the tasks are causally unordered for the detector while execution is serial and replayable. Oracles: no data race with a library frame; every result equals the result of the same call made alone on a fresh parse with the same services; no panic or budget overrun that the sequential twin does not show. Lazily filled process-wide state is kept cold by running the concurrent phase before the reference phase and by salting literals; failures that need earlier operations in the same process are reported with their minimal prelude.",
+  "Deterministic scheduling of real goroutines: 2-6 caller tasks run scripts of independent work (parse, print, quote, format, sanitize, lookup) and read-only operations on 1-2 shared ASTs; a pre-drawn plan decides which task runs and where it is preempted (library function entries, schema-service/valuer callbacks, statements touching sync/atomic or sync.Map, operation boundaries). The binary is built with -race; the scheduler's handoffs are hidden from ThreadSanitizer (norace functions, RaceDisable around channel operations), so the tasks are causally unordered for the detector while execution is serial and replayable. Oracles: no data race with a library frame; every result equals the result of the same call made alone on a fresh parse with the same services; no panic or budget overrun that the sequential twin does not show; in a third of the runs the reference results are taken before and after the concurrent phase and must agree. Tasks may share one immutable schema service, a further shared statement of any kind, and do in-place work on statements of their own. Lazily filled process-wide state is kept cold by running the concurrent phase before the reference phase and by salting literals; failures that need earlier operations in the same process are reported with their minimal prelude.",
   "Yield granularity is function entry / callbacks / atomic statements / op boundaries; interleavings inside standard-library calls are not controlled. ThreadSanitizer keeps a bounded access history per word. Library-spawned goroutines or channel waits would only hit the watchdog (exit 2). GroupByInterval/GroupByOffset on shared ASTs and in-place rewrites are excluded as the property says.",
   "deterministic simulation: plan-driven cooperative scheduler over real goroutines with the Go race detector as oracle plus sequential-twin result equality", "DESIGN.md §3.3, §4 C17")
 check("C18", "clocksim", "exploration",
@@ -78,7 +78,7 @@ def main():
       "setup_cmd": "./vsim setup",
       "hooks": {
         "guard": "verif",
-        "enable": "No hook is committed in /repo. Every check copies /repo's working tree to /var/tmp/verif.XXXXXX, rewrites the copy with /verif/instrument (yields at every function entry, map-range order seam, lock bracketing, bufio size knob, pushback assertion), adds the package /verif/hook as influxql/verifhook, and builds the engine with -tags verif (and -race for C17) against that copy.",
+        "enable": "No hook is committed in /repo. Every check copies /repo's working tree to /var/tmp/verif.XXXXXX, rewrites the copy with /verif/instrument (yields at every function entry, loop iteration and atomic operation; map-range order seam; lock spinning; sync.Pool seam; bufio size knob; pushback assertion), adds the package /verif/hook as influxql/verifhook, and builds the engine with -tags verif (and -race for C17) against that copy.",
         "baseline_off_cmd": "cd /repo && GOFLAGS=-mod=mod GOPROXY=off GOSUMDB=off go test -json -vet=off -count=1 -timeout 25m ./...",
         "source_commits": [],
         "add_only": True,
@@ -86,7 +86,7 @@ def main():
       "engines": engines,
       "checks": [CHECKS[k] for k in sorted(CHECKS)],
       "not_applicable": na,
-      "notes": "Technique: deterministic simulation with fault injection. Exit codes of every command: 0 held / 1 VIOLATION / 2 infrastructure. Known findings: /verif/known_findings.json. See DESIGN.md.",
+      "notes": "Technique: deterministic simulation with fault injection. Exit codes of every command: 0 held / 1 VIOLATION / 2 infrastructure. Known findings: /verif/known_findings.json (five open C05 position findings that the repository's own tests encode; ten fix: commits in /repo recorded as fixed). Sensitivity: 84 seeded changes in /verif/seeded (RESULTS.md), all reported; 31 property-preserving refactorings in /verif/benign, all silent. ./vsim selftest determinism|sensitivity. See DESIGN.md.",
     }
     json.dump(m, open("/verif/MANIFEST.json", "w"), indent=1)
     print("MANIFEST.json written:", len(m["checks"]), "checks,", len(na), "not applicable")
